@@ -105,6 +105,22 @@ def rfcParse (u : List Char) : Option (List Char × List Char) :=
     | (mt, true) => (b64Decode p).map (fun d => (mt, d))
     | (mt, false) => some (mt, pctDecode p)
 
+/-- a percent-encoded payload that is *validly encoded* for the table `t`: every `%` starts an escape and every
+    byte `t` wants escaped is escaped -/
+def pctValid (t : Char → Bool) : List Char → Bool
+  | [] => true
+  | c :: a :: b :: r =>
+    if c = '%' then (hexv a).isSome && (hexv b).isSome && pctValid t r
+    else !t c && pctValid t (a :: b :: r)
+  | c :: r => c ≠ '%' && !t c && pctValid t r
+
+/-- "input whose payload was already validly encoded": base64 (then `rfcParse` succeeding says it decodes) or
+    percent-encoded with everything escaped that `t` wants escaped -/
+def validlyEncoded (t : Char → Bool) (u : List Char) : Bool :=
+  match splitURL u with
+  | none => false
+  | some (head, p) => (splitMarker head).2 || pctValid t p
+
 /-! ## media type normal form -/
 
 /-- split at every `;` -/
